@@ -251,7 +251,7 @@ pub fn byron_spec() -> impl Strategy<Value = crate::byron::BSpec> {
         // fee = summand + multiplier * (size + 2) + delta: the validator's own boundary is at delta = -2 * multiplier = -88
         prop_oneof![3 => 0i64..100_000, 3 => -92i64..-84, 2 => -200_000i64..0, 1 => any::<i64>()],
         prop_oneof![5 => Just(0i64), 1 => 1i64..1_000_000, 1 => Just(i64::MAX)],
-        prop_oneof![5 => Just(0u8), 1 => 1u8..5],
+        prop_oneof![5 => Just(0u8), 2 => 1u8..9],
     )
         .prop_map(|(ins, outputs, fee_delta, change_delta, witness_edit)| BSpec {
             inputs: ins.into_iter().map(|(key, amount, kind, txid, idx)| BIn { key, amount, kind, txid, idx }).collect(),
